@@ -4,6 +4,7 @@ Solid emission at ℝ: definitions shared by the C09b theorems and the general f
 -/
 import CelerVerif.Model.Solids
 import CelerVerif.Props.C12
+import CelerVerif.Lemmas.SolidsXform
 import Mathlib.Tactic.NormNum
 import Mathlib.Tactic.Positivity
 
@@ -101,42 +102,82 @@ theorem fmod4_lt (fuel : ℕ) (x : ℝ) (hx : x < 4 * ((fuel : ℝ) + 1)) : fmod
       rw [if_neg h']
       exact not_le.mp h
 
+/-! ### general transformations -/
+
+/-- orthonormal matrix (rotation or reflection) for a full transformation -/
+def _root_.CelerVerif.Surf.Xform.Ortho : Xform ℝ → Prop
+  | .full t => t.rot.orthoCols ∧ t.rot.orthoRows
+  | _ => True
+
+/-- apply the transform to every emitted surface (`IntersectSurfaceBuilder` does this for each
+    inserted surface) -/
+noncomputable def xformEmit (x : Xform ℝ) (l : List (Sense × Surface ℝ)) : List (Sense × Surface ℝ) :=
+  l.map fun q => (q.1, x.applySurf q.2)
+
+/-- every emitted plane has a unit normal -/
+def UnitNormals (l : List (Sense × Surface ℝ)) : Prop := ∀ q ∈ l, q.2.UnitNormal
+
+theorem applySurf_quadric (x : Xform ℝ) (hx : x.Ortho) (s : Surface ℝ) (hs : s.UnitNormal)
+    (p : Vec3 ℝ) : (x.applySurf s).quadric (x.up p) = s.quadric p := by
+  cases x with
+  | none => rfl
+  | tra t => exact translate_quadric s t p
+  | full t => exact transform_quadric t hx.1 s hs p
+
+theorem holds_xform (x : Xform ℝ) (hx : x.Ortho) (l : List (Sense × Surface ℝ))
+    (hl : UnitNormals l) (p : Vec3 ℝ) : Holds (xformEmit x l) (x.up p) ↔ Holds l p := by
+  unfold Holds xformEmit
+  constructor
+  · intro h q hq
+    have := h (q.1, x.applySurf q.2) (List.mem_map.mpr ⟨q, hq, rfl⟩)
+    simpa only [applySurf_quadric x hx q.2 (hl q hq) p] using this
+  · intro h q hq
+    obtain ⟨q', hq', rfl⟩ := List.mem_map.mp hq
+    simpa only [applySurf_quadric x hx q'.2 (hl q' hq') p] using h q' hq'
+
+theorem offSurfaces_xform (x : Xform ℝ) (hx : x.Ortho) (l : List (Sense × Surface ℝ))
+    (hl : UnitNormals l) (p : Vec3 ℝ) :
+    OffSurfaces (xformEmit x l) (x.up p) ↔ OffSurfaces l p := by
+  unfold OffSurfaces xformEmit
+  constructor
+  · intro h q hq
+    have := h (q.1, x.applySurf q.2) (List.mem_map.mpr ⟨q, hq, rfl⟩)
+    simpa only [applySurf_quadric x hx q.2 (hl q hq) p] using this
+  · intro h q hq
+    obtain ⟨q', hq', rfl⟩ := List.mem_map.mp hq
+    simpa only [applySurf_quadric x hx q'.2 (hl q' hq') p] using h q' hq'
+
+theorem xform_up_down (x : Xform ℝ) (hx : x.Ortho) (q : Vec3 ℝ) : x.up (x.down q) = q := by
+  cases x with
+  | none => rfl
+  | tra t => exact translate_up_down t q
+  | full t => exact transform_up_down t hx.2 q
+
 /-! ### boolean objects -/
 
-/-- the inverse of the accumulated daughter-to-parent translation -/
-noncomputable def downBy (tra : Option (Vec3 ℝ)) (p : Vec3 ℝ) : Vec3 ℝ :=
-  match tra with
-  | none => p
-  | some t => translateDown t p
+/-- an object is built soundly at the local point q under the accumulated daughter-to-parent
+    transform `acc`: evaluating the emitted CSG tree at the parent-frame image of q gives the
+    membership of q -/
+def Sound (tol : Tol ℝ) (acc : Xform ℝ) (o : Obj ℝ) (q : Vec3 ℝ) : Prop :=
+  Obj.eval tol acc o (acc.up q) = Obj.mem o q
 
-/-- an object is built soundly at p under the accumulated translation `tra`: evaluating the
-    emitted CSG tree at p gives the membership of the pulled-back point -/
-def Sound (tol : Tol ℝ) (tra : Option (Vec3 ℝ)) (o : Obj ℝ) (p : Vec3 ℝ) : Prop :=
-  Obj.eval tol tra o p = Obj.mem o (downBy tra p)
-
-theorem translateDown_add (t u p : Vec3 ℝ) :
-    translateDown (Vec3.add t u) p = translateDown t (translateDown u p) := by
-  apply vec3_ext <;> xf_simp <;> num_simp <;> ring
-
-theorem sound_neg (tol : Tol ℝ) (tra : Option (Vec3 ℝ)) (o : Obj ℝ) (p : Vec3 ℝ)
-    (h : Sound tol tra o p) : Sound tol tra (.neg o) p := by
+theorem sound_neg (tol : Tol ℝ) (acc : Xform ℝ) (o : Obj ℝ) (q : Vec3 ℝ)
+    (h : Sound tol acc o q) : Sound tol acc (.neg o) q := by
   unfold Sound at *
   simp only [Obj.eval, Obj.mem, h]
 
-theorem sound_translated (tol : Tol ℝ) (tra : Option (Vec3 ℝ)) (t : Vec3 ℝ) (o : Obj ℝ) (p : Vec3 ℝ)
-    (h : Sound tol (some (match tra with | none => t | some u => Vec3.add t u)) o p) :
-    Sound tol tra (.translated t o) p := by
-  cases tra with
-  | none =>
-    simp only [Sound, Obj.eval, Obj.mem, downBy] at h ⊢
-    exact h
-  | some u =>
-    simp only [Sound, Obj.eval, Obj.mem, downBy] at h ⊢
-    rw [h, translateDown_add]
+/-- `Transformed`: the daughter is built under the composed transform and contains q iff the
+    original contains `x.down q` -/
+theorem sound_xformed (tol : Tol ℝ) (acc x : Xform ℝ) (hx : x.Ortho) (o : Obj ℝ) (q : Vec3 ℝ)
+    (h : Sound tol (acc.compose x) o (x.down q)) : Sound tol acc (.xformed x o) q := by
+  unfold Sound at *
+  simp only [Obj.eval, Obj.mem]
+  rw [compose_up, xform_up_down x hx] at h
+  exact h
 
-theorem evalAll_eq (tol : Tol ℝ) (tra : Option (Vec3 ℝ)) (os : List (Obj ℝ)) (p : Vec3 ℝ)
-    (h : ∀ o ∈ os, Sound tol tra o p) :
-    Obj.evalAll tol tra os p = Obj.memAll os (downBy tra p) := by
+theorem evalAll_eq (tol : Tol ℝ) (acc : Xform ℝ) (os : List (Obj ℝ)) (q : Vec3 ℝ)
+    (h : ∀ o ∈ os, Sound tol acc o q) :
+    Obj.evalAll tol acc os (acc.up q) = Obj.memAll os q := by
   induction os with
   | nil => simp [Obj.evalAll, Obj.memAll]
   | cons o os ih =>
@@ -146,9 +187,9 @@ theorem evalAll_eq (tol : Tol ℝ) (tra : Option (Vec3 ℝ)) (os : List (Obj ℝ
     unfold Sound at this
     rw [this]
 
-theorem evalAny_eq (tol : Tol ℝ) (tra : Option (Vec3 ℝ)) (os : List (Obj ℝ)) (p : Vec3 ℝ)
-    (h : ∀ o ∈ os, Sound tol tra o p) :
-    Obj.evalAny tol tra os p = Obj.memAny os (downBy tra p) := by
+theorem evalAny_eq (tol : Tol ℝ) (acc : Xform ℝ) (os : List (Obj ℝ)) (q : Vec3 ℝ)
+    (h : ∀ o ∈ os, Sound tol acc o q) :
+    Obj.evalAny tol acc os (acc.up q) = Obj.memAny os q := by
   induction os with
   | nil => simp [Obj.evalAny, Obj.memAny]
   | cons o os ih =>
